@@ -384,6 +384,108 @@ def run(report, p):
         differ = [(a, l) for a, l in atoms if "hash_string" in a and " == " in a and l == "F"]
         r6.check(not differ, cf, n, f"the matching loop is left by `{'break' if isinstance(n, ast.Break) else 'return'}` when `{differ[0][0][:70] if differ else ''}` is false: after the first missing path that does not match, the remaining missing paths are never compared with this candidate - of several simultaneous renames at most one is detected, the others are reported missing", construct="matching loop left on a digest mismatch")
 
+    # ------------------------------------------------------------------ R17.8
+    r8 = report.rule(
+        "R17.8",
+        "every pair (candidate new path, missing recorded path) reaches a comparison of digests: no path through one iteration of the pair loop goes on to the next pair without "
+        "passing a digest comparison (or a test that only tells directories from files / selects the record); file size, dates or names do not decide whether a pair is compared",
+        1,
+    )
+    all_loops = [n for n in walk_no_nested(cf.node) if isinstance(n, ast.For) and all(_inside_node(st, n) for st in stores)]
+    pair_loops = [n for n in all_loops if not any(_inside_node(m, n) for m in all_loops if m is not n)]
+    if len(pair_loops) != 1:
+        raise AnalysisError(f"create: the pair loop of the rename matching was not found ({len(pair_loops)})")
+    pl = pair_loops[0]
+    r8.instance(cf, pl, f"for {norm(pl.target)} in {norm(pl.iter)[:40]}")
+
+    def _compares_digests(fn_qual):
+        for q in p.reachable([fn_qual]):
+            for n in walk_no_nested(p.funcs[q].node):
+                if isinstance(n, ast.Compare) and "hash_string" in norm(n):
+                    return True
+        return False
+
+    heads = {h.id for h in gcf.nodes if h.kind == "loop" and h.ast in all_loops}
+    passing = set()
+    for t in gcf.nodes:
+        if t.kind != "test" or not _inside_node(t.ast, pl):
+            continue
+        calls_ = [tq for x in ast.walk(t.ast) if isinstance(x, ast.Call) for tq in p.resolve_call(x, cf) if tq in p.funcs]
+        if any(isinstance(x, ast.Compare) and "hash_string" in norm(x) for x in ast.walk(t.ast)):
+            passing.add(t.id)
+        elif any(_compares_digests(tq) for tq in calls_):
+            passing.add(t.id)
+        elif calls_ and not all(p.funcs[tq].cls for tq in calls_):
+            raise AnalysisError(f"{cf.loc(t.ast)}: the helper in `{norm(t.ast)[:60]}` decides whether a pair of the rename matching is compared (judged on the helper-inlined view)")
+
+    def _kind(e, lab):
+        """what taking branch `lab` of test `e` says about the pair: 'just' (the pair cannot be a renamed file of equal content: a directory where the file would
+        have to be read, or sizes that differ), 'fmt0' (the new record has no digest in the recorded format), 'neutral', 'ret' (result variable of an inlined helper),
+        'foreign' (anything else)"""
+        flip = {"T": "F", "F": "T"}
+        while isinstance(e, ast.UnaryOp) and isinstance(e.op, ast.Not):
+            e, lab = e.operand, flip[lab]
+        if isinstance(e, ast.BoolOp):
+            ks = [_kind(v, lab) for v in e.values]
+            flat = [k for sub_ in ks for k in sub_]
+            if (isinstance(e.op, ast.Or) and lab == "F") or (isinstance(e.op, ast.And) and lab == "T"):
+                return flat  # all hold
+            # one of them holds, unknown which: justified only when every alternative is
+            if all(sub_ == ["just"] for sub_ in ks):
+                return ["just"]
+            return ["foreign"] if "foreign" in flat else (["ret"] if "ret" in flat else ["neutral"])
+        txt = norm(e)
+        if "is_directory" in txt or "isdir(" in txt:
+            return ["dir" if lab == "T" else "neutral"]
+        if isinstance(e, ast.Compare) and len(e.ops) == 1 and "file_size" in norm(e.left) and "file_size" in norm(e.comparators[0]):
+            differs = (isinstance(e.ops[0], ast.NotEq) and lab == "T") or (isinstance(e.ops[0], ast.Eq) and lab == "F")
+            return ["just" if differs else "neutral"]
+        if isinstance(e, ast.Compare) and len(e.ops) == 1 and isinstance(e.ops[0], (ast.Is, ast.IsNot)) and "file_size" in norm(e.left):
+            return ["neutral"]
+        core = e.left if isinstance(e, ast.Compare) and len(e.ops) == 1 and isinstance(e.ops[0], (ast.Is, ast.IsNot)) and norm(e.comparators[0]) == "None" else e
+        if isinstance(core, ast.Name):
+            if core.id.startswith("__ret__"):
+                return ["ret"]
+            try:
+                os_ = pr.origins(core, cf)
+            except AnalysisError:
+                os_ = []
+            if os_ and all(o == ("const", None) or is_call(o, "find_hash_entry_for_format") for o in os_):
+                absent = lab == "F" if core is e else ((isinstance(e.ops[0], ast.Is) and lab == "T") or (isinstance(e.ops[0], ast.IsNot) and lab == "F"))
+                return ["fmt0" if absent else "neutral"]
+            if os_ and all(o == ("const", None) or is_call(o, "find_media_hash_for_path") or is_call(o, "find_or_create_media_hash_for_path") for o in os_):
+                return ["neutral"]
+        return ["foreign"]
+
+    first = gcf.node_for(pl.body[0])
+    bad_path = None
+    n_paths = 0
+    if first.id not in passing:
+        for end, conds, trail in gcf.paths([(first, None, [])], heads | passing | {gcf.exit.id}, limit=20000):
+            if end.id in passing or end.kind == "raise":
+                continue
+            n_paths += 1
+            kinds = []
+            for tast, lab in conds:
+                if lab in ("T", "F"):
+                    kinds += [(k, tast, lab) for k in _kind(tast, lab)]
+            ks = {k for k, _, _ in kinds}
+            justified = "just" in ks or ("dir" in ks and "fmt0" in ks)
+            if justified:
+                continue
+            foreign = [(norm(t_)[:70], l_) for k, t_, l_ in kinds if k in ("foreign", "dir")]
+            if not foreign and "ret" in ks:
+                raise AnalysisError(f"{cf.loc(pl)}: a pair of the rename matching is skipped on the result of an inlined helper that could not be related to its tests")
+            if bad_path is None or len(foreign) > len(bad_path[0]):
+                bad_path = (foreign, trail)
+    r8.note(f"{n_paths} path(s) through one iteration of the pair loop reach the next pair without a digest comparison")
+    if bad_path is not None:
+        foreign, trail = bad_path
+        gate = "; ".join(f"`{t}` is {'true' if l == 'T' else 'false'}" for t, l in foreign) or "no test at all decides it"
+        r8.check(False, cf, pl, f"a pair of a new path and a missing recorded path is dropped without comparing any digest, and not because the pair cannot match (a directory that would have to be read as a file, two different sizes): {gate}. The property holds for every rename that keeps the content - a renamed file whose bookkeeping differs (touched, copied back, dates recorded by another tool) is then reported missing and recorded as new", witness=gcf.fmt_path(trail), construct="pair skipped without digest comparison")
+    else:
+        r8.check(True, cf, pl, "")
+
     report.not_decided += ["the pairing produced for concrete sets of simultaneous renames", "renames of folders that contain nested histories"]
 
 
